@@ -59,4 +59,19 @@ FD_SELF __CPROVER_ensures(__CPROVER_return_value == self->fd) __CPROVER_assigns(
 
 bool scoped_fd_is_open(scoped_fd* self)
 FD_SELF __CPROVER_ensures(__CPROVER_return_value == (self->fd >= 0)) __CPROVER_assigns();
+
+/* open(2) as scoped_fd::open uses it: a new descriptor (>= 0) or -1; no descriptor is closed by it (trusted stub) */
+int c14_open_raw(const char* filename, int flags, unsigned perm)
+__CPROVER_ensures(__CPROVER_return_value >= -1)
+__CPROVER_assigns();
+
+/* scoped_fd::open(const char*, int, mode_t): the descriptor held on entry is released exactly once BEFORE the object takes
+ * the new one (otherwise it leaks: "scoped descriptors close exactly once"); afterwards the object owns the new descriptor,
+ * or cannot_open_file was thrown and it owns none */
+void scoped_fd_open(scoped_fd* self, const char* filename, int mode, unsigned perm)
+FD_SELF FD_COUNT_LIMIT
+__CPROVER_requires(verif_exc == 0)
+FD_RELEASES(__CPROVER_old(self->fd))
+__CPROVER_ensures(verif_exc == 0 ? self->fd >= 0 : (verif_exc == EXC_cannot_open_file && self->fd < 0))
+__CPROVER_assigns(self->fd, g_closes, g_closes_other, verif_exc);
 #endif
